@@ -853,9 +853,13 @@ class Exec:
                 try:
                     old = s._read_at(cells, p.obj, o, n, isptr)
                 except Unsupported:
-                    # a candidate that would tear a differently-typed cell: legitimate only if it is infeasible
-                    if oc is None and s._infeasible(st, gand(g, p.off.e == o)): continue
-                    raise
+                    # a candidate that would tear a differently-typed cell: legitimate only if it is infeasible;
+                    # otherwise it is reported like a faulting access (the counterexample is replayed natively)
+                    cnd = gand(g, p.off.e == o) if oc is None else g
+                    if oc is None and s._infeasible(st, cnd): continue
+                    s.oblig.append((gand(st.guard, cnd), 'store of %d bytes at %s+%d tears cells of another layout (write beyond the addressed sub-object)' % (n, p.obj, o), 'mem'))
+                    st.guard = gand(st.guard, gnot(cnd))
+                    continue
                 cond = (p.off.e == o) if oc is None else True
                 cond = gand(cond, g)
                 _clear_overlap(s, cells, p.obj, o, n)
